@@ -1047,12 +1047,7 @@ func failedCallsRememberedK(c *kit.Ctx, sb *ssa.Function, sticky *ssa.Alloc, sti
 	}
 }
 
-func calleeFullName(fn *ssa.Function) string {
-	if fn.Object() != nil {
-		return fn.Object().(*types.Func).FullName()
-	}
-	return fn.String()
-}
+func calleeFullName(fn *ssa.Function) string { return kit.KnownFullName(fn) }
 
 // mapIsThe: v is the map value the (or a parameter that every call site binds to it).
 func mapIsThe(p *kit.Prog, v ssa.Value, the ssa.Value, depth int) bool {
